@@ -197,6 +197,12 @@ func c07One(p *run.Part, spec entrySpec, onlyMod string, onlyArg []int, full boo
 			continue
 		}
 		x := cloneEntry(e)
+		// the object was verified before it is changed in place (an entry a log has already admitted is then edited
+		// through its exported fields, its clock, its slices): nothing about an earlier verdict may be remembered
+		if perr := x.Verify(prov, io); perr != nil {
+			p.Violate("tamper", "C07:original-rejected", fmt.Sprintf("a clone of the untouched entry %s does not verify: %v", spec, perr), c07Case{Spec: spec, Mod: "none"})
+			return
+		}
 		m.ap(x)
 		var verr error
 		pv, stack := run.Safe(func() { verr = x.Verify(prov, io) })
